@@ -2,13 +2,11 @@ package checks
 
 import (
 	"fmt"
-	"sort"
 	"strings"
 
 	"github.com/gogpu/naga/ir"
 
 	"verif/internal/explore"
-	"verif/internal/irx"
 	"verif/internal/nagax"
 	"verif/internal/wgen"
 )
@@ -27,9 +25,7 @@ import (
 func init() {
 	validExtra = append(validExtra, func(thorough bool) *wgen.Family { return wgen.F5XLight() })
 	extraFamilyByName["F5Xlight"] = wgen.F5XLight
-	// c09.go registers the base run (its init runs first: file order); the run below is the same run
-	// plus the interface pass, under one explore.Run so that there is one evidence file.
-	Registry["C09"] = runC09WithIO
+	c09Extra = append(c09Extra, c09IOPass)
 	perProgram["C09"] = func(r *explore.Run, p *prog) {
 		if strings.HasPrefix(p.Sig, "F5X/") && p.Case == nil {
 			for _, x := range wgen.F5XPrograms(true) {
@@ -307,30 +303,14 @@ func c09IOProgram(r *explore.Run, p *wgen.F5XProgram, st *c09Stats) {
 	r.Distinct("io:" + p.Class)
 }
 
-func runC09WithIO() int {
-	r := explore.New("C09")
-	st := &c09Stats{fired: map[string]int64{}}
-	texts := append(append([]wgen.Micro{}, wgen.Micros...), corpus()...)
-	forEachProgram(r, quickFamilies(r), texts, func(p *prog) { c09Program(r, p, st) })
+// c09IOPass is the interface pass over the F5X programs (contributed to runC09 through c09Extra).
+func c09IOPass(r *explore.Run, st *c09Stats) string {
 	xs := wgen.F5XPrograms(r.Thorough())
 	r.Count("programs", int64(len(xs)))
 	r.Extra("family_F5X", len(xs))
 	r.ParallelFor(len(xs), func(i int) { c09IOProgram(r, xs[i], st) })
-	var unex []string
-	for _, rule := range irx.Rules() {
-		if st.fired[rule] == 0 {
-			unex = append(unex, rule)
-		}
-	}
-	sort.Strings(unex)
-	r.Extra("rule_fire_counts", st.fired)
-	r.Extra("rules_unexercised", unex)
-	r.Sample(map[string]any{"program": "corpus/" + "access", "rules": irx.Rules()})
 	if len(xs) > 0 {
 		r.Sample(map[string]any{"program": xs[len(xs)/3].Sig, "source": xs[len(xs)/3].Src})
 	}
-	printKeys(r)
-	return r.Finish("the module returned by LowerWithSource for every program of F1, F2 (node budget per tier), the contributed families, the micro-programs and the 172 corpus shaders is checked by an independent strict IR validator (24 rules: handle ranges and backward references, no abstract types, type uniqueness, recorded type = independently inferred type, emit coverage/dominance, terminators, return paths and types, store/call/atomic typing, entry-point bindings, resource bindings, plus naga's own validator); in addition every F5X interface program (every permutation of every IO/resource/entry-point attribute list: @location x every legal @interpolate x 8 types x struct member/shared struct/bare/mixed parameter x @size/@align, @blend_src pairs, @builtin+@invariant, every builtin, @group/@binding order for 8 resource kinds, @compute/@workgroup_size order, @id overrides in every order) is lowered and its entry-point bindings, member offsets, resource bindings/spaces/access modes, stages, workgroup sizes and override ids are compared with the interface model of the generator (complete, conflict-free, independent of attribute order), and passed through the strict validator; distinct = distinct canonical module hashes + interface classes",
-		[]string{"the strict validator (internal/irx) is written against the property's statement and upstream naga's valid:: rules",
-			"the interface model is computed by the generator from the attributes it writes (WGSL defaults: perspective/center for floats, flat for integers)"})
+	return "; in addition every F5X interface program (every permutation of every IO/resource/entry-point attribute list: @location x every legal @interpolate x 8 types x struct member/shared struct/bare/mixed parameter x @size/@align, @blend_src pairs, @builtin+@invariant, every builtin, @group/@binding order for 8 resource kinds, @compute/@workgroup_size order, @id overrides in every order) is lowered and its entry-point bindings, member offsets, resource bindings/spaces/access modes, stages, workgroup sizes and override ids are compared with the interface model of the generator (complete, conflict-free, independent of attribute order), and passed through the strict validator"
 }
